@@ -136,6 +136,7 @@ def catalogue():
     add("stats.pc_joint", lambda: [gtab()], lambda a: stats.pc_joint(a[0], ["s", "t"]))
     add("stats.pc_conditional", lambda: [gtab()], lambda a: stats.pc_conditional(a[0], "g", "s"))
     add("stats.pc_conditional-weights", lambda: [gtab(), [1, 2]], lambda a: stats.pc_conditional(a[0], ["g"], "s", group_weights=a[1]))
+    add("stats.pc_conditional-ndarray-weights", lambda: [gtab(), np.array([1.0, 2.0])], lambda a: stats.pc_conditional(a[0], "g", "s", group_weights=a[1]))
     add("stats.pc_grouped_cross", lambda: [gtab()], lambda a: stats.pc_grouped_cross(a[0], "g", "s"))
     add("stats.varpc_n", lambda: [np.array([3, 2, 2, 1])], lambda a: stats.varpc_n(a[0]))
     add("stats.stdpc", lambda: [seqs()], lambda a: stats.stdpc(a[0]))
@@ -162,6 +163,8 @@ def catalogue():
     add("distance.calculate_neighbor_numbers", lambda: [seqs()], lambda a: distance.calculate_neighbor_numbers(a[0]))
     add("distance.isdist1", lambda: ["CAAA", set(seqs2())], lambda a: [distance.isdist1(a[0], a[1]), distance.nndist_hamming(a[0], a[1])])
     add("distance.hierarchical_clustering", lambda: [seqs()], lambda a: distance.hierarchical_clustering(a[0]))
+    add("distance.hierarchical_clustering-metric1", lambda: [seqs()], lambda a: distance.hierarchical_clustering(a[0], metric=WeightedLevenshtein()))
+    add("distance.hierarchical_clustering-metric2", lambda: [seqs()], lambda a: distance.hierarchical_clustering(a[0], metric=WeightedLevenshtein(substitution_weight=3)))
     add("distance.hierarchical_clustering-kws", lambda: [seqs(), dict(method="single"), dict(t=1, criterion="distance")],
         lambda a: distance.hierarchical_clustering(a[0], linkage_kws=a[1], cluster_kws=a[2]))
     # metrics
